@@ -3,6 +3,7 @@ package checks
 import (
 	"encoding/json"
 	"fmt"
+	"github.com/jsightapi/jsight-schema-core/notations/jschema"
 	"os"
 	"strings"
 	"sync"
@@ -18,6 +19,12 @@ import (
 func init() {
 	core.Workers["c10"] = func(raw json.RawMessage) core.WorkerOut {
 		c10WorkerInit()
+		var sw struct {
+			Sweep int `json:"sweep"`
+		}
+		if json.Unmarshal(raw, &sw) == nil && sw.Sweep > 0 {
+			return core.WorkerOut{Findings: apiSweep(sw.Sweep), Keys: []string{fmt.Sprint("sweep", sw.Sweep)}}
+		}
 		var h apiHist
 		if err := json.Unmarshal(raw, &h); err != nil {
 			return core.WorkerOut{Findings: []core.Finding{{Class: "harness", What: err.Error()}}}
@@ -65,6 +72,27 @@ func c10WorkerInit() {
 		apiPrecompute(contents, 1)
 		pools.install()
 	})
+}
+
+// apiSweep repeats one project - a root and the type with two defective internal types - n times in a row and, now
+// and then, a project that creates two internal types, so that whatever the process counts (names, pooled objects,
+// sizes of caches) passes its thresholds at every alignment. SchemaApi.tla: every repetition answers like the first.
+func apiSweep(n int) []core.Finding {
+	obs := func() string {
+		root := jschema.New("schema-shallow", apiTexts["shallow"])
+		_ = root.AddType("@typeC", jschema.New("schema-typeC", apiTexts["typeC"]))
+		return errObs(root.Check()) + " | " + func() string { b, err := root.Example(); return string(b) + " " + errObs(err) }()
+	}
+	first := obs()
+	for i := 1; i < n; i++ {
+		if i%30 == 0 {
+			_ = jschema.New("filler", "{\n  \"p\": @x | @y\n}").Check()
+		}
+		if o := obs(); o != first {
+			return []core.Finding{{Class: "api:history-dependent:Check:typeC:repetition", What: fmt.Sprintf("repetition %d of the same project in one process answers %.300q, the first one %.300q", i, o, first)}}
+		}
+	}
+	return nil
 }
 
 func apiHistKey(h apiHist) string {
@@ -143,6 +171,16 @@ func runC10(c *core.Ctx) error {
 	}
 	c.AddTLC(cfg, res)
 	c.Set("histories", len(cases))
+	// repetition sweeps, spread over the worker processes
+	for i := 0; i < 48; i++ {
+		k := (i*len(cases))/48 + i
+		sweep := json.RawMessage(fmt.Sprintf(`{"sweep":%d}`, 3000+i))
+		if k >= len(cases) {
+			cases = append(cases, sweep)
+		} else {
+			cases = append(cases[:k], append([]json.RawMessage{sweep}, cases[k:]...)...)
+		}
+	}
 	var mu sync.Mutex
 	var traceLines [][]byte
 	var traceCase []int // case index per line
